@@ -68,7 +68,7 @@ pub fn gen_c26(ctx: &Ctx) -> Report {
     for sp in &spaces {
         for i in 0..sp.total {
             // thin the large spaces deterministically in the quick tier
-            if sp.total > 2000 && i % stride != (ctx.seed % stride) {
+            if sp.total > 2000 && i % stride != 0 {
                 continue;
             }
             let (p, e) = sp.at(i);
